@@ -501,6 +501,37 @@ pub fn run_app(ctx: &Ctx) {
             stdout_toks(&res.stdout),
             expected.join(",")
         ));
+        // the option wiring: the whole-program model, configured as main.rs says these options configure the
+        // receiver, must print what the real program printed with them
+        let mut b = samedec_builder(22050);
+        let mut dc = 0.38f32;
+        let (mut tbu, mut tbl) = (0.125f32, 0.05f32);
+        let (mut so, mut sc) = (0.10f32, 0.05f32);
+        for kv in opts.chunks(2) {
+            let v: f32 = kv[1].parse().unwrap();
+            match kv[0] {
+                "--dc-blocker-len" => dc = v,
+                "--agc-bw" => {
+                    b.with_agc_bandwidth(v);
+                }
+                "--timing-bw-unlocked" => tbu = v,
+                "--timing-bw-locked" => tbl = v,
+                "--timing-max-dev" => {
+                    b.with_timing_max_deviation(v);
+                }
+                "--squelch-pwr-open" => so = v,
+                "--squelch-pwr-close" => sc = v,
+                "--preamble-max-errors" => {
+                    b.with_preamble_max_errors(kv[1].parse().unwrap());
+                }
+                _ => {}
+            }
+        }
+        b.with_dc_blocker_length(dc).with_timing_bandwidth(tbu, tbl).with_squelch_power(so, sc);
+        let op = format!("app.full quiet=0 child=0 {} {}", crate::suites::fullrx::cfg_tokens(&b), raw.display());
+        let imp = format!("printed={} children=- exit={}", stdout_toks(&res.stdout), res.status.map(|c| c.to_string()).unwrap_or("signal".to_owned()));
+        out.op(&op, &imp, true);
+        out.count("whole_program_model_runs_with_options");
     }
     out.finish(&ctx.out_dir, "app", &[]);
 }
